@@ -121,7 +121,7 @@ void bbox_labeled(const numpy::aligned_array<T> array, T2 extrema) {
 PyObject* py_bbox(PyObject* self, PyObject* args) {
     PyArrayObject* array;
     if (!PyArg_ParseTuple(args,"O", &array)) return NULL;
-    if (!PyArray_Check(array)) { 
+    if (!numpy::are_arrays(array)) { 
         PyErr_SetString(PyExc_RuntimeError, TypeErrorMsg);
         return 0;
     }
